@@ -738,7 +738,15 @@ class Formatter:
 
     def orderby(self, json, prec):
         param = ", ".join(
-            (self.dispatch(s["value"], precedence["order"]) + " " + s.get("sort", "").upper()).strip()
+            " ".join(
+                part
+                for part in (
+                    self.dispatch(s["value"], precedence["order"]),
+                    s.get("sort", "").upper(),
+                    "NULLS " + s["nulls"].upper() if s.get("nulls") else "",
+                )
+                if part
+            )
             for s in listwrap(json["orderby"])
         )
         return f"ORDER BY {param}"
